@@ -80,7 +80,8 @@ class PumlParser(DiagramParser):
 
     @classmethod
     def _remove_content_outside_start_and_end_tags(cls, content: str) -> str:
-        regex = f"{ANYTHING}{PUML_START_MARKER}({NON_EMPTY_STRING}){PUML_END_MARKER}{ANYTHING}"
+        # the diagram ends at the first end tag after the start tag: text behind it may mention the tag again
+        regex = f"{ANYTHING}{PUML_START_MARKER}({NON_EMPTY_STRING}?){PUML_END_MARKER}{ANYTHING}"
         # dotall: . also matches newline character
         pattern = re.compile(regex, re.DOTALL)
 
